@@ -5,7 +5,7 @@ usage: target.py <Cxx> <target> <outdir> [libFuzzer args: -runs=N -seed=S corpus
 Bytes are decoded by a FuzzedDataProvider layer into the same JSON case the property's
 plain check function takes; the check function (reference-model oracle) runs inside the
 target.  A violation is written to <outdir>/violation.json and the process exits 1; stats
-(executions, non-trivial cases) are flushed to <outdir>/stats.json every 500 executions
+(executions, non-trivial cases) are flushed to <outdir>/stats.json every 25 executions
 because libFuzzer ends the process without running atexit handlers.
 """
 import json
@@ -104,7 +104,10 @@ def _flush():
 def target(data):
     fdp = atheris.FuzzedDataProvider(data)
     check, case = DECODERS[(PROP, TARGET)](fdp)
-    # reset process-wide state that could leak between iterations (these targets are not about history)
+    run_case(check, case)
+
+
+def run_case(check, case):
     out = engine.Acc(PROP).record(check, MOD.CHECKS[check], case)
     STATS["executions"] += 1
     if out.nt:
@@ -120,13 +123,30 @@ def target(data):
         _flush()
         sys.stdout.flush()
         os._exit(1)
-    if STATS["executions"] % 500 == 0:
+    if STATS["executions"] % 25 == 0 or STATS["executions"] < 5:
         _flush()
+
+
+def hyp_target(name):
+    """Targets named hyp:<name>: the property module's own Hypothesis strategy (MOD.FUZZ[name] =
+    (check name, strategy factory)) is driven by libFuzzer's bytes through Hypothesis'
+    fuzz_one_input, so the structured generator becomes coverage-guided without a second decoder."""
+    from hypothesis import HealthCheck, given, settings
+
+    check, factory = MOD.FUZZ[name]
+
+    @settings(database=None, deadline=None, suppress_health_check=list(HealthCheck))
+    @given(factory())
+    def drive(case):
+        run_case(check, case)
+
+    return drive.hypothesis.fuzz_one_input
 
 
 def main():
     argv = [sys.argv[0]] + sys.argv[4:]
-    atheris.Setup(argv, target)
+    fn = hyp_target(TARGET[4:]) if TARGET.startswith("hyp:") else target
+    atheris.Setup(argv, fn)
     _flush()
     atheris.Fuzz()
 
